@@ -22,7 +22,7 @@ use crate::{
             ControlPoints, DifficultyPoint, EffectFlags, EffectPoint, SamplePoint, TimingPoint,
         },
     },
-    util::Pos,
+    util::{cmp_time, Pos},
 };
 
 impl Beatmap {
@@ -377,7 +377,7 @@ impl Beatmap {
             .map(ControlPointGroup::from)
             .collect();
 
-        groups.sort_unstable_by(|a, b| a.time.total_cmp(&b.time));
+        groups.sort_unstable_by(|a, b| cmp_time(a.time, b.time));
 
         let times = control_points
             .difficulty_points
@@ -387,7 +387,7 @@ impl Beatmap {
             .chain(control_points.sample_points.iter().map(|point| point.time));
 
         for time in times {
-            if let Err(i) = groups.binary_search_by(|probe| probe.time.total_cmp(&time)) {
+            if let Err(i) = groups.binary_search_by(|probe| cmp_time(probe.time, time)) {
                 groups.insert(i, ControlPointGroup::new(time));
             }
         }
@@ -867,7 +867,7 @@ fn collect_samples(map: &mut Beatmap, control_points: &mut ControlPoints) {
         }
     }
 
-    collected_samples.sort_by(|a, b| a.time.total_cmp(&b.time));
+    collected_samples.sort_by(|a, b| cmp_time(a.time, b.time));
     let mut collected_samples = collected_samples.into_iter();
 
     if let Some(sample) = collected_samples.next() {
